@@ -59,7 +59,7 @@ pub fn run(ctx: &Ctx) -> Outcome {
                 if !d.cbc && ivn != "zero" {
                     continue; // ECB variants take no IV
                 }
-                for (dn, data) in data_variants(seed, 0xC05, lmax) {
+                for (dn, data) in data_variants(seed, 0xC05, lmax).into_iter().skip(light(cfg, tier)) {
                     for &l in &lens {
                         let m = &data[..l];
                         let want_enc = rf::cts_enc(&c, ivo, d.variant, m);
